@@ -1,15 +1,17 @@
 """print the prompt for a fresh mutation-seeding sub-agent: python3 tools/seed_prompt.py C05"""
 import json, sys
 pid = sys.argv[1]
-ROUND2 = len(sys.argv) > 2 and sys.argv[2] == "2"
+ROUND = int(sys.argv[2]) if len(sys.argv) > 2 else 1
+ROUND2 = ROUND >= 2
 for l in open("/verif/properties.jsonl"):
     p = json.loads(l)
     if p["id"] == pid:
         break
 wt = "/tmp/seed-%s" % pid
+prevs = []
 if ROUND2:
-    wt = "/tmp/seed2-%s" % pid
-    prev = json.load(open("/verif/seeded/%s/meta.json" % pid))
+    wt = "/tmp/seed%d-%s" % (ROUND, pid)
+    prevs = [json.load(open("/verif/seeded/%s%s/meta.json" % (pid, "" if r == 1 else "-%d" % r))) for r in range(1, ROUND)]
 print(f"""You are testing a verification effort by injecting a realistic bug. Work ONLY inside the git worktree {wt} (a scratch checkout of the Python project "ioflo": flow-based automation framework with a FloScript DSL builder, hierarchical frame state machines, a generator based scheduler and its own non-blocking TCP/HTTP/UDP stack). Do NOT read or touch /verif or /repo, and do not look at other /tmp directories. No network.
 
 The project is supposed to satisfy this property:
@@ -27,8 +29,8 @@ Deliverables, all written into {wt}/OUT/ (create the directory):
   3. meta.json   - {{"property": "{pid}", "summary": "<one sentence: what the change does>", "needs": "<what specific input / sequence / interleaving / fault is needed for it to manifest>", "files": ["<changed files>"], "tests_run": "<the exact test command(s) you ran and the result>"}}
 
 Rules:
-  * Use /venv/bin/python. Run the relevant part of the existing tests with your change applied, e.g. `cd {wt} && /venv/bin/python -m pytest -q -p no:cacheprovider --timeout=300 <package dir such as ioflo/base or ioflo/aio/http>` (other people run the same suite on this machine and the network tests use fixed ports, so run only the package(s) your change touches, one at a time; in ioflo/aio/tcp five tests fail on the unchanged code already: testTLSConnectionVerifyBothTLSv1, testTLSConnectionVerifyNeither, testTcpClientServer, testTcpClientServerService, testTcpClientServerServiceCat). All tests that pass on the unchanged code must still pass with your change.
+  * Use /venv/bin/python. Run the relevant part of the existing tests with your change applied, e.g. `cd {wt} && /venv/bin/python -m pytest -q -p no:cacheprovider --timeout=300 <package dir such as ioflo/base or ioflo/aio/http>` (other people run the same suite on this machine and the network tests use fixed ports, so run only the package(s) your change touches, one at a time, and if you see 'Address already in use' run the tests inside a private network namespace: `unshare -n sh -c 'ip link set lo up; cd {wt} && /venv/bin/python -m pytest ...'`; in ioflo/aio/tcp five tests fail on the unchanged code already: testTLSConnectionVerifyBothTLSv1, testTLSConnectionVerifyNeither, testTcpClientServer, testTcpClientServerService, testTcpClientServerServiceCat). All tests that pass on the unchanged code must still pass with your change.
   * Read the anchored code carefully first so the bug is subtle and really violates the statement as written (not merely some other behaviour).
-  * Leave your source change APPLIED (uncommitted) in the worktree when you finish, do not commit.""" + ("""
-  * Another tester already produced this change for the same property: "%s" (files %s). Yours must be DIFFERENT: another function / another mechanism / another clause of the statement, not a variation of that one.""" % (prev["summary"].replace('"', "'"), ", ".join(prev.get("files", []))) if ROUND2 else "") + f"""
+  * Leave your source change APPLIED (uncommitted) in the worktree when you finish, do not commit.""" + ("".join("""
+  * Another tester already produced this change for the same property: "%s" (files %s). Yours must be DIFFERENT: another function / another mechanism / another clause of the statement, not a variation of that one.""" % (prev["summary"].replace('"', "'"), ", ".join(prev.get("files", []))) for prev in prevs)) + f"""
   * Final message: the summary, the 'needs', and the exact output of demo.py with and without the change.""")
